@@ -100,7 +100,7 @@ def run(ctx):
 
 
 def sig(hist):
-    return ";".join(f"{c}/{f}/{u}/{s}" for c, f, u, s in hist)
+    return ";".join("/".join(str(v) for v in h) for h in hist)
 
 
 def replay(ctx, obj):
